@@ -120,7 +120,8 @@ def run(ctx):
         for ch_ in ast.iter_child_nodes(n_):
             ch_._parent = n_
     ctx.analysed(bg_)
-    from ._generic import minimal_scan
+    from ._generic import minimal_scan, reachability_tables
+    ctx.floor('reachability tables of the region graph', reachability_tables(ctx, bg_, 'region-structure'), 2)
     ctx.floor('covering relation of the region graph (as a double loop with a no-region-in-between test, or as a scan for minimal supersets)',
               covering_relation(ctx, bg_, 'region-structure') + minimal_scan(ctx, bg_, 'region-structure'), 1)
     for name_, m_ in sorted(repo.methods(LI, 'LocalInference').items()):
